@@ -235,9 +235,9 @@ pub fn registry() -> &'static Vec<Op> {
         reg_quire::<Q16E1>(&mut v);
         reg_quire::<Q32E2>(&mut v);
         // posit <-> posit
-        v.push(Op { name: "P8E0->P16E1/P32E2".into(), args: vec![Arg::P(8)], f: Box::new(|a| { let p = P8E0::from_bits(a[0] as u8); mix(p.to_p16e1().to_bits() as u64, p.to_p32e2().to_bits() as u64) }) });
-        v.push(Op { name: "P16E1->P8E0/P32E2".into(), args: vec![Arg::P(16)], f: Box::new(|a| { let p = P16E1::from_bits(a[0] as u16); mix(p.to_p8e0().to_bits() as u64, p.to_p32e2().to_bits() as u64) }) });
-        v.push(Op { name: "P32E2->P8E0/P16E1".into(), args: vec![Arg::P(32)], f: Box::new(|a| { let p = P32E2::from_bits(a[0] as u32); mix(p.to_p8e0().to_bits() as u64, p.to_p16e1().to_bits() as u64) }) });
+        v.push(Op { name: "P8E0.to_p16e1/to_p32e2".into(), args: vec![Arg::P(8)], f: Box::new(|a| { let p = P8E0::from_bits(a[0] as u8); mix(p.to_p16e1().to_bits() as u64, p.to_p32e2().to_bits() as u64) }) });
+        v.push(Op { name: "P16E1.to_p8e0/to_p32e2".into(), args: vec![Arg::P(16)], f: Box::new(|a| { let p = P16E1::from_bits(a[0] as u16); mix(p.to_p8e0().to_bits() as u64, p.to_p32e2().to_bits() as u64) }) });
+        v.push(Op { name: "P32E2.to_p8e0/to_p16e1".into(), args: vec![Arg::P(32)], f: Box::new(|a| { let p = P32E2::from_bits(a[0] as u32); mix(p.to_p8e0().to_bits() as u64, p.to_p16e1().to_bits() as u64) }) });
         for n in 2..=32u32 {
             with_n!(n, N, {
                 reg_px::<PxE2<N>>(&mut v);
@@ -624,6 +624,13 @@ pub fn run(rep: &mut Report) {
     out.distinct = pend.len() as u64;
     rep.sections.push(out);
     rep.extra.insert("ops_registered".into(), json!(reg.len()));
+    // registry completeness (informational): public fn names found in /repo/src that no registered
+    // operation name mentions and that are not in the reviewed exclusion list
+    let unregistered = unregistered_public_fns();
+    if !unregistered.is_empty() {
+        println!("NOTE: public functions not covered by the C16 registry: {:?}", unregistered);
+    }
+    rep.extra.insert("public_fns_not_in_registry".into(), json!(unregistered));
 }
 
 pub fn replay(op: &str, args: &[u64]) -> Result<(), Viol> {
@@ -679,4 +686,50 @@ pub fn list_stubs() -> i32 {
     }
     println!("{}", serde_json::to_string_pretty(&json!({"stubs": stubs.iter().chain(partial.iter()).collect::<Vec<_>>(), "always": stubs, "partial": partial})).unwrap());
     0
+}
+
+/// names of `pub fn` / `pub const fn` items under /repo/src that the registry does not exercise
+fn unregistered_public_fns() -> Vec<String> {
+    // reviewed: constructors/accessors used by every case, internal helpers exposed as pub, stubs
+    const EXCLUDED: &[&str] = &[
+        "new", "from_bits", "to_bits", "init", "isqrt", "poly", "bitround", "pow", "pow2i", "ilogb", "ldexp2", "mulsign",
+        "to_i8", "to_i16", "to_isize", "to_u8", "to_u16", "to_usize", // narrow to_* : forwarded to to_i32/to_u32, compared in C17
+        "eq", "lt", "le", "gt", "ge", "is_zero", "is_nar", "is_nan", "is_infinite", "is_finite", "is_normal", "is_sign_positive", "is_sign_negative", "clamp", // inside classify/cmp ops; clamp(lo > hi) is a documented assert
+        "from_pxe1", "from_pxe2", "to_pxe1", "to_pxe2", "from_posit", "to_posit", "add_product", "sub_product", "clear", "into_two_posits", "into_three_posits",
+        "from_i8", "from_i16", "from_isize", "from_u8", "from_u16", "from_usize", "quire_dot",
+    ];
+    let names: std::collections::BTreeSet<String> = registry().iter().flat_map(|o| o.name.split(|c: char| !(c.is_alphanumeric() || c == '_')).map(|s| s.to_string()).collect::<Vec<_>>()).collect();
+    let mut missing = std::collections::BTreeSet::new();
+    fn walk(dir: &std::path::Path, out: &mut Vec<std::path::PathBuf>) {
+        if let Ok(rd) = std::fs::read_dir(dir) {
+            for e in rd.flatten() {
+                let p = e.path();
+                if p.is_dir() {
+                    walk(&p, out);
+                } else if p.extension().map(|x| x == "rs").unwrap_or(false) {
+                    out.push(p);
+                }
+            }
+        }
+    }
+    let mut files = vec![];
+    walk(std::path::Path::new("/repo/src"), &mut files);
+    for f in files {
+        if f.to_string_lossy().contains("linalg") {
+            continue;
+        }
+        if let Ok(t) = std::fs::read_to_string(&f) {
+            for line in t.lines() {
+                let l = line.trim_start();
+                let rest = l.strip_prefix("pub const fn ").or_else(|| l.strip_prefix("pub fn "));
+                if let Some(r) = rest {
+                    let name: String = r.chars().take_while(|c| c.is_alphanumeric() || *c == '_').collect();
+                    if !name.is_empty() && !names.contains(&name) && !EXCLUDED.contains(&name.as_str()) {
+                        missing.insert(name);
+                    }
+                }
+            }
+        }
+    }
+    missing.into_iter().collect()
 }
